@@ -90,6 +90,8 @@ def geo_worlds(tier: str, seed: int, *, convs=W.ALL_CONVS, big: bool = True) -> 
         for c in combos:
             c = dict(c); ny = c.pop("ny"); nx = c.pop("nx")
             out.append(structured_world("cf1d", ny, nx, **c))
+            if len(out) % 2 == 0:
+                out[-1]["first_var"] = "flag"      # dataset dimension order x before y (see worlds.build)
     for conv in ("cf2d", "shoc_simple"):
         if conv not in convs:
             continue
@@ -99,6 +101,7 @@ def geo_worlds(tier: str, seed: int, *, convs=W.ALL_CONVS, big: bool = True) -> 
             dict(ny=3, nx=4, shape="skew", bounds=False, holes=[(0, 0)]),
             dict(ny=3, nx=3, shape="skew", bounds=True, holes=[(1, 1), (2, 2)], coords_as="plain"),
             dict(ny=2, nx=2, shape="rect", bounds=True, bowtie=(0, 1)),
+            dict(ny=3, nx=4, shape="rect", bounds=True, holes=[(0, 1), (1, 0)], bowtie=(2, 1)),   # cells without geometry BEFORE a self-intersecting one
             dict(ny=1, nx=3, shape="skew", bounds=True), dict(ny=4, nx=3, shape="skew2", bounds=False, holes=[(0, 0), (0, 1)]),
             dict(ny=3, nx=3, shape="rect", bounds=False, holes=[(1, 1)]),      # isolated interior cell without a centre
             dict(ny=4, nx=4, shape="skew", bounds=False, holes=[(1, 2)], coords_as="plain"),
@@ -115,6 +118,8 @@ def geo_worlds(tier: str, seed: int, *, convs=W.ALL_CONVS, big: bool = True) -> 
         for c in combos:
             c = dict(c); ny = c.pop("ny"); nx = c.pop("nx")
             out.append(structured_world(conv, ny, nx, **c))
+            if len(out) % 2 == 0:
+                out[-1]["first_var"] = "flag"
     for conv in ("shoc_standard", "arakawa"):
         if conv not in convs:
             continue
@@ -131,6 +136,8 @@ def geo_worlds(tier: str, seed: int, *, convs=W.ALL_CONVS, big: bool = True) -> 
         for c in combos:
             c = dict(c); ny = c.pop("ny"); nx = c.pop("nx")
             out.append(structured_world(conv, ny, nx, **c))
+            if len(out) % 2 == 0:
+                out[-1]["first_var"] = "flag"
     if "ugrid" in convs:
         encs = [dict(base=0, fill="intfill"), dict(base=1, fill="intfill"), dict(base=1, fill="nan"),
                 dict(base=0, fill="nan", transposed=True), dict(base=0, fill="none", coords_as="coords"),
@@ -182,6 +189,24 @@ def probe_points(w: dict, rng: random.Random, limit: int = 60) -> list[list[int]
     if len(lst) > limit:
         lst = rng.sample(lst, limit)
     return [list(p) for p in lst]
+
+
+def far_point(w: dict) -> list[int]:
+    """a query point beyond every possible model (more than 1500 degrees east): certainly a miss"""
+    return [100000, 100000]
+
+
+def inner_points(w: dict) -> list[list[int]]:
+    """integral points at the vertex average of cells (inside for convex cells; the specification decides)"""
+    out = []
+    for poly in abstract_polys(w):
+        if not poly:
+            continue
+        n = len(poly)
+        sx = sum(p[0] for p in poly); sy = sum(p[1] for p in poly)
+        if sx % n == 0 and sy % n == 0:
+            out.append([sx // n, sy // n])
+    return out
 
 
 def abstract_polys(w: dict) -> list[list[list[int]]]:
